@@ -25,7 +25,7 @@ theorem not_hasFile_of_not_inside {p : PC} (h : inside p = false) : hasFile p = 
   | true => rw [hasFile_inside hh] at h; exact absurd h (by simp)
 
 /-- program counters only a shared requester or a re-entering child can reach -/
-def okPC (v : PC) : Prop := v ≠ .existsChk ∧ v ≠ .scan2 ∧ v ≠ .unlocked
+def okPC (v : PC) : Prop := v ≠ .existsChk ∧ v ≠ .scan2 ∧ v ≠ .unlocked ∧ ∀ e, v ≠ .failedRel e
 
 structure ExInv (s : St) : Prop where
   allEx  : ∀ i, s.kind i = .ex
@@ -198,7 +198,7 @@ theorem exInv_step (s : St) (i : Pid) (h : ExInv s) : ExInv (step s i) := by
     | succ n => rw [step_scanMsg_succ hpc]; exact h.upd_outside i (.mkdir n) hout rfl (by simp [okPC])
   | existsChk => rw [hpc] at hns; exact absurd rfl hns.1
   | scan2 => rw [hpc] at hns; exact absurd rfl hns.2.1
-  | unlocked => rw [hpc] at hns; exact absurd rfl hns.2.2
+  | unlocked => rw [hpc] at hns; exact absurd rfl hns.2.2.1
   | scan =>
     have hin : inside (s.pc i) = true := by simp [hpc, inside]
     have hfiles : s.files = [] := h.files_nil_of_noFile hin (by simp [hpc, hasFile])
@@ -260,7 +260,7 @@ theorem exInv_step (s : St) (i : Pid) (h : ExInv s) : ExInv (step s i) := by
     simpa [hfiles] using this
   | done => rw [step_done hpc]; exact h
   | failedAcq e => rw [step_failedAcq hpc]; exact h
-  | failedRel e => rw [step_failedRel hpc]; exact h
+  | failedRel e => rw [hpc] at hns; exact absurd rfl (hns.2.2.2 e)
 
 theorem exInv_run (s : St) (h : ExInv s) (sched : List Pid) : ExInv (run s sched) := by
   induction sched generalizing s with
